@@ -107,6 +107,9 @@ def plan(tier, seed):
         for policy in ("min", "max"):
             shards.append((policy, cap, "fmax"))
             shards.append((policy, cap, "inf"))
+    # one long deterministic history on a heap of 300 elements (identifiers beyond 256)
+    for policy in ("min", "max"):
+        shards.append(("bigheap", policy, 300))
     # start from non-initial states too: every valid heap arrangement of n distinct keys,
     # built through real inserts, then every operation sequence up to a depth
     for n, depth in DEEP[tier]:
@@ -396,12 +399,72 @@ def run_deep(shard, seed):
     return res
 
 
+def big_ops(policy, size, seed):
+    """insert all elements with distinct keys in a scrambled order, interleaving removes and
+    improving updates; the heap is drained at the end by the replay."""
+    ops = []
+    keys = {}
+    order = [(i * 37 + 11 * seed) % size for i in range(size)]
+    queued = []
+    for t, e in enumerate(order):
+        k = float((e * 53) % size) + 1000.0
+        ops.append(("insert" if t % 2 else "update", e, k))
+        keys[e] = k
+        queued.append(e)
+        if t % 5 == 4:
+            ops.append(("remove", -1, 0.0))
+        if t % 7 == 3:
+            v = queued[(t * 13) % len(queued)]
+            nk = keys[v] - 500.5 if policy == "min" else keys[v] + 500.5
+            ops.append(("update?", v, nk))
+            keys[v] = nk
+    return ops
+
+
+def run_big(shard, seed):
+    from opfython.core.heap import Heap
+    _, policy, size = shard
+    res = Result()
+    h = Heap(size, policy)
+    ref = ((WHITE,) * size, (None,) * size)
+    done = []
+    for op in big_ops(policy, size, seed):
+        kind, e, v = op
+        if kind == "update?":
+            if ref[0][e] != GRAY:
+                continue           # already removed: updates of removed elements are outside the property
+            kind = "update"
+        try:
+            ref, prob = step(h, policy, size, ref, (kind, e, v))
+        except Exception as ex:
+            prob = "%s raised %r" % (kind, ex)
+        done.append([kind, e, v])
+        res.transitions += 1
+        if prob:
+            res.violation("step", {"policy": policy, "size": size, "ops": done}, prob,
+                          "reference priority queue", prob, fingerprint(prob))
+            break
+    if not res.violations:
+        prob = drain_problem(Heap, size, policy, snap(h), ref)
+        if prob:
+            res.violation("drain", {"policy": policy, "size": size, "ops": done, "then": "drain"}, prob,
+                          "each queued element once, in key order", prob, fingerprint(prob))
+    res.states += 1
+    res.nontrivial += 1
+    res.evaluations = res.transitions
+    res.traces = res.transitions
+    res.sample({"policy": policy, "size": size, "ops": "%d operations" % len(done)}, 1)
+    return res
+
+
 def run(shard, seed):
     from opfython.core.heap import Heap
     import opfython.utils.constants as c
 
     if shard[0] == "deep":
         return run_deep(shard, seed)
+    if shard[0] == "bigheap":
+        return run_big(shard, seed)
     policy, size, m = shard
     keys = key_table(seed, m)
     res = Result()
